@@ -62,10 +62,14 @@ type ReplayFile struct {
 	Key      string          `json:"key"`
 	What     string          `json:"what"`
 	Case     json.RawMessage `json:"case"`
+	Env      map[string]int  `json:"env,omitempty"`
 }
 
 // ReplayInProcess runs the recorded case once in this process and returns the violations it raised.
 func ReplayInProcess(rf *ReplayFile) (*Ctx, error) {
+	if len(rf.Env) > 0 {
+		defer ApplyEnv(rf.Env)()
+	}
 	if rf.Kind == "shard-schedule" {
 		var sc struct {
 			Shard, Of int
@@ -80,6 +84,7 @@ func ReplayInProcess(rf *ReplayFile) (*Ctx, error) {
 			return nil, fmt.Errorf("bad shard schedule")
 		}
 		c := NewCtx(rf.Property, sc.Tier, sc.Seed, sc.Shard, sc.Of)
+		c.Env = rf.Env
 		spec.Run(c)
 		return c, nil
 	}
@@ -89,6 +94,7 @@ func ReplayInProcess(rf *ReplayFile) (*Ctx, error) {
 	}
 	c := NewCtx(rf.Property, "quick", 0, 0, 1)
 	c.Replay = true
+	c.Env = rf.Env
 	spec := Props[rf.Property]
 	stall, heap := 20*time.Second, uint64(1<<30)
 	if spec != nil && spec.Stall != 0 {
@@ -268,6 +274,22 @@ func runShard(o *RunOpts, prop string, shard, n int) *shardRun {
 			What:  fmt.Sprintf("%s in case %s (worker exit %d)", why, rep.Kind, code),
 			Order: fmt.Sprintf("%04d:%012d", shard, rep.Idx),
 		})
+		// the same culprit again means that skipping the case does not avoid the kill (the time is spent between
+		// cases): skip its entry point wholesale, and give up if even that does not help
+		for _, sk := range skip {
+			if sk == rep.Idx {
+				already := false
+				for _, e := range skipEntries {
+					already = already || e == rep.Entry
+				}
+				if already || rep.Entry == "" {
+					sr.err = fmt.Errorf("worker %d of %s is killed (%s) at case %d (%s) although the case and its entry point are skipped: the time is spent outside the cases", shard, prop, why, rep.Idx, rep.Kind)
+					return sr
+				}
+				kills[rep.Entry] = 2
+				break
+			}
+		}
 		skip = append(skip, rep.Idx)
 		// an entry point that keeps killing the worker is skipped wholesale after three culprits (recorded as a cap)
 		kills[rep.Entry]++
@@ -349,7 +371,7 @@ func RunCheck(o *RunOpts, prop string) int {
 	os.MkdirAll(filepath.Join(o.VerifDir, "replays"), 0o755)
 	for _, k := range keys {
 		v := m.Viols[k]
-		rf := &ReplayFile{Property: prop, Kind: v.Kind, Key: v.Key, What: v.What, Case: v.Case}
+		rf := &ReplayFile{Property: prop, Kind: v.Kind, Key: v.Key, What: v.What, Case: v.Case, Env: v.Env}
 		name := sanitize(v.Key)
 		path := filepath.Join(o.VerifDir, "replays", name+".json")
 		b, _ := json.MarshalIndent(rf, "", " ")
@@ -430,7 +452,7 @@ func RunCheck(o *RunOpts, prop string) int {
 				continue
 			}
 			sc, _ := json.Marshal(map[string]any{"shard": v.Shard, "of": n, "tier": o.Tier, "seed": o.Seed, "first_failing_case_kind": v.Kind, "first_failing_case": v.Case})
-			rf := &ReplayFile{Property: prop, Kind: "shard-schedule", Key: k, What: v.What + " — fails only after the calls the worker shard made before it (state carried between calls); the replay re-runs that shard", Case: sc}
+			rf := &ReplayFile{Property: prop, Kind: "shard-schedule", Key: k, What: v.What + " — fails only after the calls the worker shard made before it (state carried between calls); the replay re-runs that shard", Case: sc, Env: v.Env}
 			path := filepath.Join(o.VerifDir, "replays", sanitize(k)+".schedule.json")
 			b, _ := json.MarshalIndent(rf, "", " ")
 			if err := os.WriteFile(path, b, 0o644); err != nil {
@@ -496,6 +518,28 @@ func RunCheck(o *RunOpts, prop string) int {
 	}
 	if len(m.Notes) > 0 {
 		cov["notes"] = m.Notes
+	}
+	// environment seams of this build (written by the overlay generator next to the binary)
+	if b, err := os.ReadFile(filepath.Join(o.VerifDir, "bin", "clock_sites.json")); err == nil {
+		var seams struct {
+			Clock []json.RawMessage `json:"clock_sites"`
+			Range []json.RawMessage `json:"map_range_sites"`
+			Note  string            `json:"map_order_seam"`
+			Seam  string            `json:"seam"`
+		}
+		if json.Unmarshal(b, &seams) == nil {
+			es := map[string]any{"wall_clock_and_local_zone_reads_behind_the_seam": len(seams.Clock), "ranges_over_maps_behind_the_seam": len(seams.Range)}
+			if seams.Note != "" {
+				es["map_order_seam_incomplete"] = seams.Note
+				m.Capped = append(m.Capped, "map-order seam incomplete: "+seams.Note)
+				cov["exhaustive"] = false
+				cov["caps_hit"] = m.Capped
+			}
+			if seams.Seam != "" {
+				es["seams"] = seams.Seam
+			}
+			cov["environment_seams"] = es
+		}
 	}
 	cov["known_findings_observed"] = knownHits
 	cov["worker_processes"] = n
@@ -704,6 +748,23 @@ func WorkerMain(prop, tier string, seed int64, shard, n int, skip []int64, skipE
 		}
 	}
 	spec.Run(c)
+	// environment seams: the exploration is repeated under every other answer of a seam whose choice points were reached
+	for _, s := range EnvSeams {
+		if s.Reached() == 0 {
+			continue
+		}
+		runs := int64(1)
+		for alt := 1; alt < s.Alternatives(); alt++ {
+			c.Env = map[string]int{s.Name: alt}
+			s.Set(alt)
+			spec.Run(c)
+			runs++
+		}
+		s.Set(0)
+		c.Env = nil
+		c.Counters["env_"+s.Name+"_choice_points_reached"] = s.Reached()
+		c.Max("env_"+s.Name+"_answers_explored", runs)
+	}
 	pprof.StopCPUProfile()
 	b, err := json.Marshal(c.Result())
 	if err != nil {
